@@ -137,6 +137,10 @@ def xspecStep (sp : XPool α) : XOp α → Option (XPool α × Obs α)
     match sp[i]? with
     | some (some es) => some (sp.set i none ++ [some (mapE g es)], .new sp.length)
     | _ => some (sp, .err "noobj")
+  | .nextAttr i =>
+    match sp[i]? with
+    | some (some _) => some (sp, .err "AttributeError")
+    | _ => some (sp, .err "noobj")
   | .peek _ _ => none
   | .copy _ => none
 
